@@ -142,7 +142,8 @@ fn ns_r(role: &str) -> char {
 }
 fn well_formed(sk: &Skel, names: &[String]) -> bool {
     let mut seen = BTreeSet::new();
-    (1..=sk.decls.len()).all(|d| seen.insert((sk.de(d).scope, ns_d(&sk.de(d).kind), names[d - 1].clone())))
+    // one table of names per scope, whatever is declared (Rename!WellFormed)
+    (1..=sk.decls.len()).all(|d| seen.insert((sk.de(d).scope, names[d - 1].clone())))
 }
 fn intended(sk: &Skel, names: &[String]) -> bool {
     (1..=sk.refs.len()).all(|r| {
@@ -469,7 +470,7 @@ fn random_names(sk: &Skel, rng: &mut StdRng, allow_homonyms: bool) -> Option<Vec
             for d in 1..=sk.decls.len() {
                 if sk.de(d).owns == 0 && !sk.de(d).ty.is_empty() && rng.gen_range(0..4) == 0 {
                     let t = sk.re(*sk.de(d).ty.last().unwrap()).tgt;
-                    if sk.de(t).kind == "struct" && !(1..=sk.decls.len()).any(|e| e != d && sk.de(e).scope == sk.de(d).scope && ns_d(&sk.de(e).kind) == 'v' && names[e - 1] == names[t - 1]) {
+                    if sk.de(t).kind == "struct" && !(1..=sk.decls.len()).any(|e| e != d && sk.de(e).scope == sk.de(d).scope && names[e - 1] == names[t - 1]) {
                         names[d - 1] = names[t - 1].clone();
                     }
                 }
